@@ -137,6 +137,16 @@ def d3(mod, run, w):
     for name, mode in CELL.items():
         f = need_fn(mod, name); fi = w.fi(f).prepare()
         calls = [i for i in f.calls() if i.get("callee") == "getEntryByteOffset"]
+        if not calls:
+            # the accessor delegates to a file-local copy helper: it must hand over its own matrix, row and column, and the helper is
+            # checked in its place
+            hs = [i for i in f.calls() if mod.fn(i.get("callee") or "") is not None and mod.fn(i["callee"]).internal and any(c2.get("callee") == "getEntryByteOffset" for c2 in mod.fn(i["callee"]).calls())]
+            direct = [a for a in list(B.accesses(f, ("arg", 0), "w")) + list(B.accesses(f, ("arg", 0), "r")) if not (a[0].op == "call" and a[0] in hs)]
+            if len(hs) == 1 and not direct:
+                h = hs[0]; fwd = all(h.ops[k]["k"] == "arg" and h.ops[k]["v"] == k for k in range(3))
+                run.check(fwd, "D3-accessor-forwards-cell", {"fn": name, "helper": h.get("callee")},
+                          Finding("D3-accessor-offset", name, "cell", "call:%s" % h.get("callee"), "%s does not hand its own matrix, row and column to %s" % (name, h.get("callee")), loc=loc(h)))
+                f = mod.fn(h["callee"]); fi = w.fi(f).prepare(); calls = [i for i in f.calls() if i.get("callee") == "getEntryByteOffset"]
         if len(calls) != 1: raise AnalysisBroken("%s: expected one getEntryByteOffset call" % name)
         offl = fi.lin({"k": "inst", "v": calls[0].id, "t": "i64"})
         accs = list(B.accesses(f, ("arg", 0), "w")) + list(B.accesses(f, ("arg", 0), "r"))
